@@ -374,7 +374,7 @@ def gen_parafac2_linesearch_02_configs(tier, rng):
     """parafac2(nn_modes=[0, 2]) with the default line search on signed slices and odd caps 7 / 9 / 11: the last executed sweep (6, 8, 10) is a
     line-search sweep, an accepted jump returns the extrapolated iterate itself.  Accepted jumps with a negative extrapolation are rare
     (~3-8% of runs: sparse signed data and a single inner PARAFAC iteration are the most productive), hence many cheap runs."""
-    nrun = 90 if tier == "quick" else 500
+    nrun = 140 if tier == "quick" else 600
     for k in range(nrun):
         I, J, K = rng.randint(2, 4), rng.randint(2, 5), rng.randint(2, 4)
         R = rng.randint(1, min(J, K, 3))
@@ -1148,14 +1148,15 @@ def corr_tucker_aset(rng, tier):
     """complete runs of non_negative_tucker_hals(algorithm='active_set'), 0 or 1 outer sweeps, from a user initialisation"""
     from tensorly.decomposition import non_negative_tucker_hals
     out = []
-    nrun = 4 if tier == "quick" else 50
+    nrun = 10 if tier == "quick" else 60
     for k in range(nrun):
         order = rng.choice([2, 3, 3])
         shape = tuple(rng.randint(2, 4 if tier != "quick" else 3) for _ in range(order))
         ranks = [rng.randint(1, min(2, s)) for s in shape]
         klass = rng.choice(["signed", "signed", "nonneg", "sparse"])
         X = gen_float_tensor(rng, shape, klass)
-        Fs = [np.array([[rng.random() + 0.05 for _ in range(r)] for _ in range(s)]) for s, r in zip(shape, ranks)]
+        # columns with distinct dominant rows: the Kronecker product of the Gram matrices stays well conditioned
+        Fs = [np.array([[0.3 * rng.random() + 0.02 + (1.0 if i % r == j else 0.0) for j in range(r)] for i in range(s)]) for s, r in zip(shape, ranks)]
         core = np.array([rng.random() + 0.05 for _ in range(int(np.prod(ranks)))]).reshape(ranks)
         nm = rng.random() < 0.3
         fixed = [rng.randrange(order - 1)] if rng.random() < 0.3 else []
@@ -1171,7 +1172,7 @@ def corr_tucker_aset(rng, tier):
         for f in r[1]:
             f = np.asarray(f)
             kr = np.kron(kr, f.T @ f)
-        if not np.all(np.isfinite(kr)) or np.linalg.cond(kr) > 1e4:
+        if not np.all(np.isfinite(kr)) or np.linalg.cond(kr) > 1e6:
             continue
         sps_model = [None] * order if sps is None else [None if m in fixed else sps[m] for m in range(order)]
         op = (f"(OTkAset {C.qtensor(shape, [float(x) for x in X.reshape(-1)])} {C.qtensor(ranks, [float(x) for x in core.reshape(-1)])} {qmats_lit(Fs)} "
